@@ -2,22 +2,36 @@
 
 Decided statically: ownership / pairing / bounds clauses (see DESIGN §3 C18).
 Not decided: global memory safety and leak-freedom over histories.
+
+Formulation notes (hardening round): obligations are attached to *sites* (a subscript, a kernel/libc
+write, a release call, a call of a subtree-freeing function) and to *roles* (the public iv_init/iv_deinit,
+the function handed to pthr_key_create, poll-method slots, functions that free a radix node handed to
+them, the list iv_tls_user_register appends to), never to the names of static helpers or locals.  A
+site obligation is evaluated in the function itself, then with its helpers inlined, then in every
+public/handler root that reaches it (h18.site_verdict); proofs are value ranges and branch atoms
+(h18.View.range), not expression texts.
 """
-from ..core import (names_of, same_value, AnalysisBroken, Inliner, canon, strip, strip_load, last_member, must_pass, relpath,
-                    norm_cond, walk, forward, lvalue_steps, lvalue_root, evloc)
-from .. import generic
-from ..analyses import (is_call, holding, atoms_imply, atoms_reading, path_to, describe, exits_of,
-                        delta_analysis, is_fail)
+import re
+
+from ..core import (AnalysisBroken, Inliner, canon, strip, strip_load, last_member, must_pass, norm_cond, walk,
+                    forward, lvalue_steps, lvalue_root, names_of)
+from .. import generic, roles
+from ..analyses import is_call, atoms_imply, path_to, exits_of, delta_analysis, is_fail, locksets, held
 from .c11 import null_rule
+from . import h18
+from .h18 import view_of, path_key, var_name, INF
 
 ANCHOR_FILES = ('iv_main_posix.c', 'iv_fd.c', 'iv_fd_epoll.c', 'iv_fd_poll.c', 'iv_timer.c', 'iv_tls.c',
                 'iv_event_raw_posix.c', 'iv_fd_pump.c', 'iv_thread_posix.c', 'iv_event.c', 'iv_popen.c',
                 'iv_work.c', 'iv_task.c')
 
-ACQUIRE = {'malloc': 'mem', 'calloc': 'mem', 'epollfd_grab': 'fd', 'epoll_create': 'fd', 'epoll_create1': 'fd',
-           'timerfd_create': 'fd', 'eventfd_grab': 'fd', 'inotify_init': 'fd'}
+# acquiring primitives (libc / kernel); repository functions that hand such a value on are found by role (acquirers)
+ACQUIRE = {'malloc': 'mem', 'calloc': 'mem', 'epoll_create': 'fd', 'epoll_create1': 'fd',
+           'timerfd_create': 'fd', 'eventfd': 'fd', 'inotify_init': 'fd', 'inotify_init1': 'fd'}
+SYSCALL_ACQUIRE = {213: 'fd', 291: 'fd', 284: 'fd', 290: 'fd', 283: 'fd'}   # x86-64: epoll_create, epoll_create1, eventfd, eventfd2, timerfd_create
 RELEASE = {'mem': ('free',), 'fd': ('close',)}
 
+# per-thread module initialisers (internal API, external linkage) and their tear-down partner
 MODULE_PAIRS = {
     'iv_fd_init': ('iv_fd_deinit', None),
     'iv_timer_init': ('iv_timer_deinit', None),
@@ -25,6 +39,10 @@ MODULE_PAIRS = {
     'iv_tls_thread_init': ('iv_tls_thread_deinit', None),
     'iv_task_init': (None, 'initialises an empty list head; acquires nothing'),
 }
+
+SLOT_ASSUMPTION = ('slot count: one slot per registered descriptor with a handler; registration is fatal for fd >= IV_FD_POLL_MAXFD, '
+                   'and distinct registered descriptors have distinct numbers, so the slot counter stays below the capacity of the '
+                   'slot arrays (stated assumption, DESIGN R-C18b)')
 
 
 def is_fd_index(x):
@@ -35,8 +53,20 @@ def is_fd_index(x):
     return False
 
 
+def _has_was(x):
+    while isinstance(x, dict):
+        if '_was' in x:
+            return True
+        if x.get('k') in ('load', 'cast', 'paren') and isinstance(x.get('e'), dict):
+            x = x['e']
+        else:
+            return False
+    return False
+
+
 def subscripts(e):
-    """index nodes evaluated by the event itself (load path / store lvalue)."""
+    """index nodes evaluated by the event itself (load path / store lvalue).  Nested loads are events of
+    their own; a sub-path that copy propagation substituted for the read of a local is not an access."""
     roots = []
     if e['ev'] == 'load':
         roots.append(e['e'])
@@ -45,12 +75,15 @@ def subscripts(e):
     out = []
     for r in roots:
         x = r
-        # walk the access path only (not nested loads: they are their own events)
         while isinstance(x, dict):
+            if _has_was(x):
+                break
+            x = strip_load(x)
             k = x.get('k')
             if k == 'index':
                 out.append(x)
-                x = strip_load(x['base']) if strip_load(x['base']).get('k') in ('member', 'index') else None
+                b = x['base']
+                x = b if (not _has_was(b) and strip_load(b).get('k') in ('member', 'index')) else None
             elif k == 'member':
                 x = x['base'] if not x['arrow'] else None
             elif k in ('cast',):
@@ -62,14 +95,16 @@ def subscripts(e):
 
 def run(ctx):
     prog = ctx.prog
+    h18.unshadow(prog)
     ctx.rule('R-C18a.method', 'per poll method: every resource (memory, descriptor) stored into the method state is '
                               'released by deinit; init failure paths release what they acquired', floor=5)
-    ctx.rule('R-C18a.module', 'every per-thread module initialiser called by iv_init has its de-initialiser called by '
-                              'the thread tear-down on every path; the state block is freed last, after the TLS slot is cleared', floor=6)
+    ctx.rule('R-C18a.module', 'every per-thread module initialiser run by iv_init has its de-initialiser run on every path of every '
+                              'thread tear-down (iv_deinit and the TLS key destructor); the state block is freed, not used afterwards, '
+                              'and the TLS slot is cleared before that', floor=12)
     ctx.rule('R-C18a.refcnt', 'shared kick descriptor: reference count balanced on every path incl. failure paths; '
-                              'descriptor created on 0->1 and closed on 1->0 under the mutex', floor=3)
-    ctx.rule('R-C18b', 'INDEX-GUARD: every subscript by a descriptor\'s poll-array index is on a path that implies '
-                       'index != -1 (or directly follows its assignment from the slot counter)', floor=6)
+                              'every change of the count is made under one common mutex', floor=3)
+    ctx.rule('R-C18b', 'INDEX-GUARD: every subscript of a slot array by a descriptor\'s slot index is on a path that implies '
+                       'index != -1 (or the index is the value the slot counter had before its increment)', floor=4)
     ctx.rule('R-C18d', 'registered descriptors are made close-on-exec and non-blocking on every success path', floor=4)
     ctx.rule('R-C18e', 'public/private twin structs agree on the user-visible prefix (names, types, offsets) and the '
                        'private struct fits in the public one', floor=3)
@@ -77,7 +112,6 @@ def run(ctx):
     ctx.rule('R-C18g', 'NULL-CONTRADICTION in the anchored files', floor=8)
     ctx.rule('R-C18h', 'INIT-COMPLETE: every private field a library function may read is written by registration or the INIT function', floor=30)
 
-    ctx.section(index_guard)
     ctx.section(fd_modes)
     ctx.section(twins)
     ctx.section(dead_frames)
@@ -86,47 +120,46 @@ def run(ctx):
     ctx.section(method_resources, prog)
     ctx.section(module_pairs, prog)
     ctx.section(refcount, prog)
-    ctx.rule('R-C18c', 'ARRAY-BOUND: every subscript with a non-constant index carries a proof: dominating range test against the constant '
-                       'bound, mask below the bound, loop index below the occupied/returned count, or the per-descriptor slot guard', floor=12)
-    ctx.rule('R-C18c.k', 'kernel/libc writes are bounded by the array they target: read lengths, (v)snprintf sizes, sscanf widths, and the '
-                         'epoll batch capacity is ARRAY_SIZE of the very array passed', floor=8)
+    ctx.rule('R-C18c', 'ARRAY-BOUND: every subscript with a non-constant index carries a proof in its calling context: the value range of '
+                       'the index (range tests, masks, ?: of constants, loop bounds) lies inside the constant bound; or the index is '
+                       'below the occupied/kernel-returned count of that very array; or it is a guarded per-descriptor slot index', floor=14)
+    ctx.rule('R-C18c.k', 'kernel/libc writes are bounded by the object they target: read lengths, (v)snprintf sizes, sscanf widths, the '
+                         'epoll batch capacity and the poll slot count never exceed the destination, however the length is spelled', floor=10)
     ctx.rule('R-C18i', 'per-thread module state that owns library-allocated records has a tear-down hook visiting them; thread init and '
                        'tear-down walk the same registration list', floor=6)
-    ctx.rule('R-C18a.radix', 'timer radix tree tear-down frees exactly the library\'s own nodes: a level is removed with the depth already '
-                             'lowered, the recursion passes depth - 1 and only descends while depth is non-zero', floor=3)
+    ctx.rule('R-C18a.radix', 'timer radix tree tear-down frees exactly the library\'s own nodes: a subtree handed to the recursive release is '
+                             'given its true level (one below the node it hangs off), the recursion descends only above the leaves, '
+                             'and tear-down removes levels until the depth is zero', floor=4)
     ctx.section(radix)
     ctx.section(array_bounds)
     ctx.section(kernel_writes)
     ctx.section(tls_hooks)
 
 
-def index_guard(ctx):
-    prog = ctx.prog
-    for f in sorted(prog.all_funcs(), key=lambda f: f.q):
-        sites = []
-        for e in f.events():
-            for ix in subscripts(e):
-                if is_fd_index(ix['idx']):
-                    sites.append((e, ix))
-        if not sites:
-            continue
-        hd = holding(f)
-        for (e, ix) in sites:
-            A = hd.get((e['_b'], e['_i']), frozenset())
-            lc = canon(ix['idx'])
-            ok = atoms_imply(A, '!=', lc, '-1') or atoms_imply(A, '>=', lc, '0') \
-                or any(a[0] == 'from++' and a[1] == lc for a in A)
-            ctx.ob('R-C18b', '%s:%s' % (f.name, canon(ix)), ok, loc=e['loc'],
-                   detail='facts holding here: %s' % (sorted('%s %s %s' % (a[1], a[0], a[2]) for a in A if a[1] == lc) or 'none about the index'),
-                   path=None if ok else path_to(f, e), fn=f.q)
+# --------------------------------------------------------------------------
+# R-C18d: descriptor modes
+# --------------------------------------------------------------------------
 
+# (mode, F_GETxx, F_SETxx, flag bit) -- Linux values, the macros are folded by the front end
+FD_MODES = (('close-on-exec', 1, 2, 1), ('non-blocking', 3, 4, 0o4000))
+REGISTERED_FD = (('iv_fd_', 'fd'), ('iv_fd', 'fd'))
+
+
+def _intval(x):
+    x = strip(x)
+    return x['v'] if isinstance(x, dict) and x.get('k') == 'int' else None
 
 
 def fd_modes(ctx):
+    """On every success path of registration the descriptor number stored in the iv_fd has its flag set:
+    either fcntl(fd->fd, F_SETxx, v) ran with the bit or-ed into v, or the path crossed the edge on which
+    the flags fetched by fcntl(fd->fd, F_GETxx) already have the bit.  The two setters are ordinary helpers
+    (inlined); nothing depends on their names or on where they are called from."""
     prog = ctx.prog
     for r in ('iv_fd_register', 'iv_fd_register_try'):
         f = prog.fn(r)
-        g = Inliner(prog, expand_methods=True, stop=lambda t: t.name in ('iv_fd_set_cloexec', 'iv_fd_set_nonblock')).inline(f)
+        g = Inliner(prog, expand_methods=True).inline(f)
+        V = view_of(prog, g)
         res = delta_analysis(g, [])
         okrets = [e for (e, d, rc, p) in res.rets if e is not None and not is_fail(rc)]
         pts = [(e['_b'], e['_i']) for e in okrets]
@@ -134,13 +167,76 @@ def fd_modes(ctx):
             pts.append((g.exit, 0))
         if not pts:
             raise AnalysisBroken('%s: no success exit' % r)
-        for setter in ('iv_fd_set_cloexec', 'iv_fd_set_nonblock'):
-            mp = must_pass(g, lambda e, s=setter: is_call(e, s) and last_member(e['args'][0]) in (('iv_fd_', 'fd'), ('iv_fd', 'fd')))
-            ok = all(mp.get(p, False) for p in pts)
-            ctx.ob('R-C18d', '%s:%s' % (r, setter), ok, loc=f.loc,
-                   detail='%s(fd->fd) on every path to a success return' % setter, fn=f.q)
+
+        def is_regfd(x):
+            return last_member(V.resolve(x)) in REGISTERED_FD
+
+        for (mode, getc, setc, bit) in FD_MODES:
+            def bit_ored_in(x, e):
+                x0 = strip(x)
+                if ((_intval(x0) or 0) & bit):
+                    return True
+                if isinstance(x0, dict) and x0.get('k') == 'bin' and x0['op'] == '|':
+                    if any((_intval(s) or 0) & bit for s in (x0['l'], x0['r'])):
+                        return True
+                n = var_name(x0)
+                if n is None:
+                    return False
+                def sets(s):
+                    if s['ev'] != 'store' or var_name(s['lhs']) != n or strip(s['lhs']).get('k') != 'var':
+                        return False
+                    if s['op'] == '|=' and ((_intval(s.get('rhs')) or 0) & bit):
+                        return True
+                    r0 = strip(s.get('rhs')) if s['op'] == '=' and 'rhs' in s else None
+                    return isinstance(r0, dict) and r0.get('k') == 'bin' and r0['op'] == '|' and \
+                        any((_intval(t) or 0) & bit for t in (r0['l'], r0['r']))
+                def other(s):
+                    return s['ev'] == 'store' and strip(s['lhs']).get('k') == 'var' and var_name(s['lhs']) == n and not sets(s)
+                mp = must_pass(g, sets, kill=other)
+                return bool(mp.get((e['_b'], e['_i'])))
+
+            def set_site(e):
+                return is_call(e, 'fcntl') and e['ev'] == 'call' and len(e['args']) >= 3 and _intval(e['args'][1]) == setc \
+                    and is_regfd(e['args'][0]) and bit_ored_in(e['args'][2], e)
+
+            fetched = {}
+
+            def holds_fetched_flags(n, point):
+                """local n holds, unmodified, what fcntl(fd->fd, F_GETxx) returned"""
+                if n not in fetched:
+                    def isdef(s):
+                        return s['ev'] == 'store' and strip(s['lhs']).get('k') == 'var' and var_name(s['lhs']) == n
+                    def fetch(s):
+                        r0 = strip(s.get('rhs')) if isdef(s) and s['op'] == '=' and 'rhs' in s else None
+                        return isinstance(r0, dict) and r0.get('k') == 'call' and r0.get('callee') == 'fcntl' \
+                            and len(r0['args']) >= 2 and _intval(r0['args'][1]) == getc and is_regfd(r0['args'][0])
+                    fetched[n] = must_pass(g, fetch, kill=lambda s: isdef(s) and not fetch(s))
+                return bool(fetched[n].get(point))
+
+            def already(blk, si):
+                if not blk.term or blk.term.get('cond') is None or len(blk.succ) != 2:
+                    return False
+                for (op, lc, rc, l, r_) in norm_cond(blk.term['cond'], si == 0):
+                    l0 = strip(l)
+                    if op == '!=' and rc == '0' and isinstance(l0, dict) and l0.get('k') == 'bin' and l0['op'] == '&':
+                        for (a, b) in ((l0['l'], l0['r']), (l0['r'], l0['l'])):
+                            n = var_name(a)
+                            if (_intval(b) or 0) & bit and n and holds_fetched_flags(n, (blk.id, len(blk.events))):
+                                return True
+                return False
+
+            sites = {id(e) for e in g.events() if set_site(e)}
+            _, ev_in = forward(g, False, lambda e, s: True if id(e) in sites else s, lambda a, b: a and b,
+                               edge=lambda blk, si, s: True if already(blk, si) else s)
+            ok = all(ev_in.get(p, False) for p in pts)
+            ctx.ob('R-C18d', '%s:%s' % (r, mode), ok, loc=f.loc,
+                   detail='fcntl(fd->fd, %s, flags | %#o) or the already-set edge on every path to a success return (%d setting sites)'
+                          % ('F_SETFD' if setc == 2 else 'F_SETFL', bit, len(sites)), fn=f.q)
 
 
+# --------------------------------------------------------------------------
+# R-C18e
+# --------------------------------------------------------------------------
 
 def twins(ctx):
     prog = ctx.prog
@@ -163,176 +259,336 @@ def twins(ctx):
                detail='; '.join(bad) or '%d user fields agree; %d <= %d bytes' % (len(user), rq['size'], rp['size']))
 
 
+# --------------------------------------------------------------------------
+# R-C18f (also used by C06: keep signature and instance naming)
+# --------------------------------------------------------------------------
+
+def _frame_stores(f):
+    out = []
+    for e in list(f.events()):
+        if e['ev'] != 'store' or e.get('op') != '=' or e.get('chain'):
+            continue
+        r = strip(e['rhs'])
+        if not (isinstance(r, dict) and r.get('k') == 'addr'):
+            continue
+        v = strip(r['e'])
+        if not (isinstance(v, dict) and v.get('k') == 'var' and v.get('vk') == 'local'):
+            continue
+        l = strip(e['lhs'])
+        if not (isinstance(l, dict) and l.get('k') == 'member'):
+            continue
+        root = lvalue_root(e['lhs'])
+        if root is not None and root.get('vk') in ('local', 'param'):
+            continue   # a field of another local
+        out.append((e, v))
+    return out
+
+
+def _frame_cleared(f, e):
+    """the location e stored a frame address into holds a non-stack value again at every return of f"""
+    l = strip(e['lhs'])
+    lc = canon(e['lhs'])
+    base = strip(l['base'])
+    basevar = base['name'] if isinstance(base, dict) and base.get('k') == 'var' else None
+
+    def tr(x, s):
+        if x is e:
+            return False
+        if s is None:
+            return None
+        if x['ev'] == 'store' and canon(x['lhs']) == lc:
+            rr = strip(x.get('rhs')) if 'rhs' in x else None
+            return not (isinstance(rr, dict) and rr.get('k') == 'addr')
+        return s
+
+    def edge(blk, si, s):
+        if s is False and basevar and blk.term and blk.term.get('cond') is not None and len(blk.succ) == 2:
+            for (op, a, b, _, _) in norm_cond(blk.term['cond'], si == 0):
+                if op == '==' and a == basevar and b == '0':
+                    return True      # the holder object itself is gone (unregistered)
+        return s
+
+    def jn(a, b):
+        if a is None:
+            return b
+        if b is None:
+            return a
+        return a and b
+    _, ev_in = forward(f, None, tr, jn, edge=edge, start=e['_b'])
+    pts = [(pb, pi) for (pb, pi, _) in exits_of(f)] + [(f.exit, 0)]
+    return not [p for p in pts if ev_in.get(p) is False]
+
 
 def dead_frames(ctx):
     prog = ctx.prog
     for f in sorted(prog.all_funcs(), key=lambda f: f.q):
-        for e in list(f.events()):
-            if e['ev'] != 'store' or e.get('op') != '=':
-                continue
-            r = strip(e['rhs'])
-            if not (isinstance(r, dict) and r.get('k') == 'addr'):
-                continue
-            v = strip(r['e'])
-            if not (isinstance(v, dict) and v.get('k') == 'var' and v.get('vk') == 'local'):
-                continue
-            l = strip(e['lhs'])
-            if not (isinstance(l, dict) and l.get('k') == 'member'):
-                continue
-            root = lvalue_root(e['lhs'])
-            if root is not None and root.get('vk') in ('local', 'param'):
-                continue   # a field of another local
+        done = {}
+        for (e, v) in _frame_stores(f):
             lc = canon(e['lhs'])
-            base = strip(l['base'])
-            basevar = base['name'] if isinstance(base, dict) and base.get('k') == 'var' else None
-            def tr(x, s, lc=lc, e=e):
-                if x is e:
-                    return False
-                if s is None:
-                    return None
-                if x['ev'] == 'store' and canon(x['lhs']) == lc:
-                    rr = strip(x.get('rhs')) if 'rhs' in x else None
-                    return not (isinstance(rr, dict) and rr.get('k') == 'addr')
-                return s
-            def edge(blk, si, s, basevar=basevar):
-                if s is False and basevar and blk.term and blk.term.get('cond') is not None and len(blk.succ) == 2:
-                    for (op, a, b, _, _) in norm_cond(blk.term['cond'], si == 0):
-                        if op == '==' and a == basevar and b == '0':
-                            return True      # the holder object itself is gone (unregistered)
-                return s
-            def jn(a, b):
-                if a is None:
-                    return b
-                if b is None:
-                    return a
-                return a and b
-            _, ev_in = forward(f, None, tr, jn, edge=edge, start=e['_b'])
-            pts = [(pb, pi) for (pb, pi, _) in exits_of(f)] + [(f.exit, 0)]
-            bad = [p for p in pts if ev_in.get(p) is False]
-            ctx.ob('R-C18f', '%s:%s' % (f.name, lc), not bad, loc=e['loc'],
-                   detail='%s = &%s (a local) is overwritten with a non-stack value on every path to return' % (lc, v['name']), fn=f.q)
+            ok = _frame_cleared(f, e)
+            if not ok:
+                # the clearing store may live in a helper: same obligation with the helpers' effects visible
+                try:
+                    g = roles.inlined(prog, f)
+                    twins_ = [x for (x, _) in _frame_stores(g) if x.get('loc') == e.get('loc')]
+                    ok = bool(twins_) and all(_frame_cleared(g, x) for x in twins_)
+                except AnalysisBroken:
+                    ok = False
+            k = (lc, e['loc'])
+            done[k] = done.get(k, True) and ok
+            done.setdefault(('v', k), v['name'])
+        for k, ok in done.items():
+            if k[0] == 'v':
+                continue
+            ctx.ob('R-C18f', '%s:%s' % (f.name, k[0]), ok, loc=k[1],
+                   detail='%s = &%s (a local) is overwritten with a non-stack value on every path to return' % (k[0], done[('v', k)]), fn=f.q)
 
 
-def _acq_kind(expr, tainted):
-    for x in walk(expr):
-        if x.get('k') == 'call' and x.get('callee') in ACQUIRE:
-            return ACQUIRE[x['callee']]
-    v = strip(expr)
-    if isinstance(v, dict) and v.get('k') == 'var' and v['name'] in tainted:
-        return tainted[v['name']]
-    return None
+# --------------------------------------------------------------------------
+# R-C18a.method
+# --------------------------------------------------------------------------
+
+def acquirers(prog):
+    """{function q: resource kind} of the repository functions that hand a freshly acquired resource to their
+    caller (return value derives from an acquiring primitive, transitively)."""
+    if getattr(prog, '_c18_acq', None) is not None:
+        return prog._c18_acq
+    acq = {}
+
+    def kind_of(expr, unit, tainted):
+        for x in walk(expr):
+            if x.get('k') == 'call':
+                nm = x.get('callee')
+                if nm in ACQUIRE:
+                    return ACQUIRE[nm]
+                if nm == 'syscall' and x.get('args') and _intval(x['args'][0]) in SYSCALL_ACQUIRE:
+                    return SYSCALL_ACQUIRE[_intval(x['args'][0])]
+                t = prog.resolve(unit, nm) if (unit and nm) else None
+                if t is not None and t.q in acq:
+                    return acq[t.q]
+        n = var_name(expr)
+        return tainted.get(n) if n else None
+
+    prog._c18_kind_of = kind_of
+    changed = True
+    while changed:
+        changed = False
+        for f in prog.all_funcs():
+            if f.q in acq or not f.blocks or f.ret == 'void':
+                continue
+            unit = prog.unit_of(f)
+            tainted = _tainted(f, lambda x, t: kind_of(x, unit, t))
+            for e in f.events():
+                if e['ev'] == 'ret' and 'value' in e:
+                    k = kind_of(e['value'], unit, tainted)
+                    if k:
+                        acq[f.q] = k
+                        changed = True
+                        break
+    prog._c18_acq = acq
+    return acq
+
+
+def _tainted(g, kind):
+    """flow-insensitive: locals that are ever assigned an acquired value"""
+    tainted = {}
+    changed = True
+    while changed:
+        changed = False
+        for e in g.events():
+            if e['ev'] == 'store' and e.get('op') == '=' and strip(e['lhs']).get('k') == 'var' and 'rhs' in e:
+                nm, k = strip(e['lhs'])['name'], kind(e['rhs'], tainted)
+                if k and tainted.get(nm) != k:
+                    tainted[nm] = k
+                    changed = True
+    return tainted
 
 
 def method_resources(ctx, prog):
     tables = prog.method_tables()
+    acq = acquirers(prog)
     done = set()
     for t, slots in sorted(tables.items()):
         if not slots.get('init') or not slots.get('deinit'):
             ctx.ob('R-C18a.method', '%s:init/deinit' % t, False, loc=prog.globals[t]['loc'], detail='init and deinit slots are mandatory')
             continue
-        # functions of this method (slot closure) + lazily acquiring helpers
         fns = []
         for slot, v in slots.items():
             if v and v[0] != 'str':
                 f = prog.resolve(v[0], v[1])
                 if f is not None:
                     fns.append(f)
-        resources = {}   # canon of state field -> (kind, store event, fn)
-        inl = Inliner(prog, stop=lambda t: t.name in ACQUIRE)
+        resources = {}   # structural key of the state field -> (kind, store event, fn, spelling)
+        inl = Inliner(prog, stop=lambda t_: t_.q in acq)
         for f in fns:
             g = inl.inline(f)
-            tainted = {}
-            # flow-insensitive: a variable that is ever assigned an acquirer's result
-            changed = True
-            while changed:
-                changed = False
-                for e in g.events():
-                    nm = k = None
-                    if e['ev'] == 'store' and e.get('op') == '=' and strip(e['lhs']).get('k') == 'var':
-                        nm, k = strip(e['lhs'])['name'], _acq_kind(e['rhs'], tainted)
-                    elif e['ev'] == 'decl' and 'init' in e:
-                        nm, k = e['name'], _acq_kind(e['init'], tainted)
-                    if nm and k and tainted.get(nm) != k:
-                        tainted[nm] = k
-                        changed = True
+            unit = prog.unit_of(f)
+            kind = lambda x, tn, unit=unit: prog._c18_kind_of(x, unit, tn)
+            tainted = _tainted(g, kind)
             for e in g.events():
-                if e['ev'] == 'store' and e.get('op') == '=' and strip(e['lhs']).get('k') != 'var':
-                    k = _acq_kind(e['rhs'], tainted)
+                if e['ev'] == 'store' and e.get('op') == '=' and strip(e['lhs']).get('k') != 'var' and 'rhs' in e:
+                    k = kind(e['rhs'], tainted)
                     st_ = lvalue_steps(e['lhs'])
-                    if k and st_ and st_[-1][0] == 'iv_state':
-                        resources.setdefault(canon(e['lhs']), (k, e, f))
+                    pk = path_key(e['lhs'])
+                    if k and st_ and st_[-1][0] == 'iv_state' and pk:
+                        resources.setdefault(pk, (k, e, f, canon(e['lhs'])))
         if not resources:
             raise AnalysisBroken('method %s: no acquired resource found in its state' % t)
         fde = prog.resolve(*slots['deinit'])
         gde = inl.inline(fde)
-        for lc, (kind, se, sf) in sorted(resources.items()):
-            key = (fde.q, lc)
-            def released(e, lc=lc, kind=kind):
-                return is_call(e, RELEASE[kind]) and canon(e['args'][0]) == lc
-            def tr(e, s):
-                return True if released(e) else s
-            def edge(blk, si, s, lc=lc):
+        vde = view_of(prog, gde)
+        for pk, (kind_, se, sf, lc) in sorted(resources.items(), key=lambda kv: kv[1][3]):
+            def released(e, pk=pk, kind_=kind_):
+                return e['ev'] == 'call' and is_call(e, RELEASE[kind_]) and e['args'] and path_key(vde.resolve(e['args'][0])) == pk
+
+            def edge(blk, si, s, pk=pk):
                 if blk.term and blk.term.get('cond') is not None and len(blk.succ) == 2:
-                    for (op, a, b, _, _) in norm_cond(blk.term['cond'], si == 0):
-                        if a == lc and ((op == '==' and b in ('-1', '0')) or (op == '<' and b == '0')):
+                    for (op, a, b, l, r) in norm_cond(blk.term['cond'], si == 0):
+                        if isinstance(l, dict) and path_key(vde.resolve(l)) == pk and \
+                                ((op == '==' and b in ('-1', '0')) or (op == '<' and b == '0')):
                             return True     # nothing was acquired
                 return s
-            _, ev_in = forward(gde, False, tr, lambda a, b: a and b, edge=edge)
+            _, ev_in = forward(gde, False, lambda e, s: True if released(e) else s, lambda a, b: a and b, edge=edge)
             ok = bool(ev_in.get((gde.exit, 0)))
             ctx.ob('R-C18a.method', '%s:%s released by deinit' % (t.replace('iv_fd_poll_method_', ''), lc), ok, loc=se['loc'],
-                   detail='%s acquired in %s is passed to %s in %s on every path (or tested as never acquired)'
-                          % (lc, sf.name, '/'.join(RELEASE[kind]), fde.name), fn=fde.q)
-        # init failure paths
+                   detail='%s acquired in %s is passed to %s by the deinit slot on every path (or tested as never acquired)'
+                          % (lc, sf.name, '/'.join(RELEASE[kind_])), fn=fde.q)
+        # init failure paths: nothing acquired so far is still held at a failing return
         fi = prog.resolve(*slots['init'])
         if fi.q in done:
             continue
         done.add(fi.q)
         gi = inl.inline(fi)
-        def tr2(e, S):
-            if e['ev'] == 'store' and e.get('op') == '=':
-                lc = canon(e['lhs'])
-                if lc in resources:
-                    return S | {lc}
-            if e['ev'] == 'call':
-                for lc, (kind, _, _) in resources.items():
-                    if is_call(e, RELEASE[kind]) and canon(e['args'][0]) == lc:
-                        S = S - {lc}
+        vi = view_of(prog, gi)
+        unit = prog.unit_of(fi)
+        kind = lambda x, tn: prog._c18_kind_of(x, unit, tn)
+        spell = {}
+
+        def keyof(x):
+            n = var_name(x) if strip(x).get('k') == 'var' else None
+            if n:
+                return ('var', n)
+            return path_key(vi.resolve(x))
+
+        def tr(e, S):
+            if e['ev'] == 'store' and e.get('op') == '=' and 'rhs' in e:
+                k = keyof(e['lhs'])
+                if k is None:
+                    return S
+                rk = keyof(e['rhs']) if isinstance(strip(e['rhs']), dict) and strip(e['rhs']).get('k') in ('var', 'member') else None
+                if kind(e['rhs'], {}):
+                    spell[k] = canon(e['lhs'])
+                    return S | {(k, kind(e['rhs'], {}))}
+                moved = [x for x in S if x[0] == rk] if rk else []
+                if moved:
+                    spell[k] = canon(e['lhs'])
+                    return (S - set(moved)) | {(k, moved[0][1])}
+                return frozenset(x for x in S if x[0] != k) if k[0] == 'var' else S
+            if e['ev'] == 'call' and e.get('args'):
+                k = keyof(e['args'][0])
+                for x in S:
+                    if x[0] == k and is_call(e, RELEASE[x[1]]):
+                        return S - {x}
             return S
-        def edge2(blk, si, S):
-            if blk.term and blk.term.get('cond') is not None and len(blk.succ) == 2:
-                for (op, a, b, _, _) in norm_cond(blk.term['cond'], si == 0):
-                    if a in S and ((op == '==' and b in ('0', '-1')) or (op == '<' and b == '0')):
-                        S = S - {a}
+
+        def edge(blk, si, atoms, S):
+            for (op, a, b, l, r) in atoms:
+                if op == 'const' or not isinstance(l, dict):
+                    continue
+                if (op == '==' and b in ('0', '-1')) or (op == '<' and b == '0'):
+                    ks = {keyof(l)} | {('var', n) for n in names_of(l)}
+                    S = frozenset(x for x in S if x[0] not in ks)
             return S
-        # local descriptor variables acquired but not yet stored are tracked the same way
-        _, ev_in = forward(gi, frozenset(), tr2, lambda a, b: a | b, edge=edge2)
-        nfail = 0
-        for (pb, pi, e) in exits_of(gi):
-            v = strip(e.get('value')) if 'value' in e else None
-            if isinstance(v, dict) and v.get('k') == 'int' and v['v'] != 0:
-                nfail += 1
-                S = ev_in.get((pb, pi), frozenset())
-                ctx.ob('R-C18a.method', '%s:failure return releases' % fi.name, not S, loc=e['loc'],
-                       detail='still held at this failing return: %s' % (sorted(S) or 'nothing'), fn=fi.q)
-        if nfail == 0:
+        rets = h18.path_states(gi, frozenset(), tr, edge)
+        fails = {}
+        for (e, S, rc) in rets:
+            if e is not None and is_fail(rc):
+                fails.setdefault(e['loc'], (e, set()))[1].update(spell.get(x[0], str(x[0])) for x in S)
+        if not fails:
             raise AnalysisBroken('%s: no failing return found' % fi.name)
+        for loc, (e, heldset) in sorted(fails.items()):
+            ctx.ob('R-C18a.method', '%s:failure return releases' % fi.name, not heldset, loc=loc,
+                   detail='still held at this failing return: %s' % (sorted(heldset) or 'nothing'), fn=fi.q)
+
+
+# --------------------------------------------------------------------------
+# R-C18a.module
+# --------------------------------------------------------------------------
+
+def _state_exprs(g, partners):
+    """spellings of the state block pointer in a tear-down: variables typed `struct iv_state *` and whatever
+    is handed to the module de-initialisers as their state argument"""
+    out = {x['name'] for e in g.events() for x in walk(e)
+           if x.get('k') == 'var' and x.get('vk') in ('local', 'param') and x.get('record') == 'iv_state' and x.get('ptr')}
+    for e in g.events():
+        if e['ev'] == 'call' and e.get('callee') in partners and e.get('args'):
+            out.add(canon(e['args'][0]))
+    return out
+
+
+def _must_unless_no_state(g, pred, sv, kill=None):
+    """{point: every path to it executed pred (and no kill since) or crossed an edge on which the state pointer is NULL
+    (nothing to tear down)}"""
+    def tr(e, s):
+        if kill and kill(e):
+            return False
+        return True if pred(e) else s
+
+    def edge(blk, si, s):
+        if s is not True and blk.term and blk.term.get('cond') is not None and len(blk.succ) == 2:
+            for (op, a, b, _, _) in norm_cond(blk.term['cond'], si == 0):
+                if op == '==' and b == '0' and a in sv:
+                    return True
+        return s
+    _, ev_in = forward(g, False, tr, lambda a, b: a and b, edge=edge)
+    return ev_in
 
 
 def module_pairs(ctx, prog):
+    """Anchors: the public iv_init / iv_deinit, and the function(s) iv_init hands to pthr_key_create (the
+    thread-exit tear-down).  Static glue between them (a shared tear-down helper, a key-allocation helper,
+    the tear-down body duplicated in both) is inlined away."""
     fi = prog.fn('iv_init')
-    fd = prog.fn('__iv_deinit')
-    gd = Inliner(prog, depth=0).inline(fd)
-    state = None
-    for e in fi.events():
-        if e['ev'] == 'store' and any(c.get('callee') in ('calloc', 'malloc') for c in walk(e.get('rhs', {})) if c.get('k') == 'call'):
-            state = canon(e['lhs'])
-    if state is None:
+    partners = {p for (p, _) in MODULE_PAIRS.values() if p}
+    stop = lambda t: t.name in partners or t.name in MODULE_PAIRS
+    gi = Inliner(prog, stop=stop).inline(fi)
+    state = set()
+    for e in gi.events():
+        if e['ev'] == 'store' and 'rhs' in e and any(c.get('callee') in ('calloc', 'malloc') for c in walk(e['rhs']) if c.get('k') == 'call'):
+            n = var_name(e['lhs'])
+            if n:
+                state.add(n)
+    if not state:
         raise AnalysisBroken('iv_init: allocation of the state block not found')
-    for e in fi.events():
-        if e['ev'] != 'call' or 'callee' not in e:
+    # thread tear-down roots
+    reg = [e for e in gi.events() if e['ev'] == 'call' and is_call(e, 'pthr_key_create')]
+    dtors = []
+    for e in reg:
+        a = strip(e['args'][1]) if len(e['args']) > 1 else None
+        if isinstance(a, dict) and a.get('k') == 'addr':
+            a = strip(a['e'])
+        t = None
+        if isinstance(a, dict) and a.get('k') == 'var' and a.get('vk') == 'func':
+            t = prog.resolve(prog.unit_of(fi), a['name'])
+        ctx.ob('R-C18a.module', 'iv_init:destructor-registered', t is not None, loc=e['loc'],
+               detail='the TLS key is created with a thread-exit destructor (%s)' % (t.name if t else canon(e['args'][1]) if len(e['args']) > 1 else '?'), fn=fi.q)
+        if t is not None and t not in dtors:
+            dtors.append(t)
+    if not reg:
+        ctx.ob('R-C18a.module', 'iv_init:destructor-registered', False, loc=fi.loc, detail='iv_init never creates the TLS key', fn=fi.q)
+    teardowns = [('iv_deinit', prog.fn('iv_deinit'))] + [('thread-exit destructor', t) for t in dtors]
+    inits = []
+    for e in gi.events():
+        if e['ev'] != 'call' or 'callee' not in e or not e['args'] or var_name(e['args'][0]) not in state:
             continue
-        if not e['args'] or canon(e['args'][0]) != state:
+        t = prog.resolve(prog.unit_of(fi), e['callee'])
+        if t is None or not t.blocks or t.static:
             continue
+        inits.append(e)
+    if not inits:
+        raise AnalysisBroken('iv_init: no per-thread module initialiser found')
+    views = [(role, T, Inliner(prog, stop=stop).inline(T)) for (role, T) in teardowns]
+    for e in inits:
         nm = e['callee']
         if nm not in MODULE_PAIRS:
             ctx.ob('R-C18a.module', 'iv_init:%s' % nm, False, loc=e['loc'],
@@ -343,36 +599,40 @@ def module_pairs(ctx, prog):
             ctx.exempt('R-C18a.module', nm, reason)
             ctx.ob('R-C18a.module', 'iv_init:%s' % nm, True, loc=e['loc'], detail='no tear-down needed: ' + reason, fn=fi.q)
             continue
-        mp = must_pass(gd, lambda x, p=partner: is_call(x, p))
-        ctx.ob('R-C18a.module', 'iv_init:%s' % nm, bool(mp.get((gd.exit, 0))), loc=e['loc'],
-               detail='%s is called by __iv_deinit on every path' % partner, fn=fd.q)
-    # free last, slot cleared first
-    frees = [e for e in fd.events() if is_call(e, 'free')]
-    if len(frees) != 1:
-        raise AnalysisBroken('__iv_deinit: expected exactly one free')
-    fr = frees[0]
-    later = [e for e in fd.events() if e['ev'] == 'call' and e is not fr and (e['_b'], e['_i']) > (fr['_b'], fr['_i']) and e['_b'] == fr['_b']]
-    after = must_pass(fd, lambda x: x['ev'] in ('call', 'store', 'load') and x is not fr, start_event=fr)
-    used_after = [x for x in fd.events() if x is not fr and after.get((x['_b'], x['_i'])) is not None and x['ev'] in ('call', 'store', 'load')]
-    ctx.ob('R-C18a.module', '__iv_deinit:free-last', not used_after, loc=fr['loc'],
-           detail='nothing is executed after the state block is freed', fn=fd.q)
-    mp = must_pass(fd, lambda x: is_call(x, 'pthr_setspecific') and canon(x['args'][1]) in ('NULL', '0'))
-    ctx.ob('R-C18a.module', '__iv_deinit:slot-cleared-before-free', bool(mp.get((fr['_b'], fr['_i']))), loc=fr['loc'],
-           detail='the TLS slot is cleared before the state block is freed', fn=fd.q)
-    # the thread-exit destructor runs the same tear-down
-    fdes = prog.fn('iv_state_destructor')
-    mp = must_pass(fdes, lambda x: is_call(x, '__iv_deinit'))
-    ctx.ob('R-C18a.module', 'iv_state_destructor:runs-deinit', bool(mp.get((fdes.exit, 0))), loc=fdes.loc,
-           detail='the TLS destructor runs __iv_deinit', fn=fdes.q)
-    # ... and is the destructor registered for the key
-    reg = [e for e in fi.events() if is_call(e, 'pthr_key_create')]
-    ok = bool(reg) and all(canon(e['args'][1]) == 'iv_state_destructor' for e in reg)
-    ctx.ob('R-C18a.module', 'iv_init:destructor-registered', ok, loc=reg[0]['loc'] if reg else fi.loc,
-           detail='iv_state_destructor is the TLS key destructor', fn=fi.q)
+        for (role, T, gT) in views:
+            mp = _must_unless_no_state(gT, lambda x, p=partner: x['ev'] == 'call' and is_call(x, p), _state_exprs(gT, partners))
+            ctx.ob('R-C18a.module', '%s:%s' % (role, nm), bool(mp.get((gT.exit, 0))), loc=e['loc'],
+                   detail='%s is run by %s on every path' % (partner, role), fn=T.q)
+    for (role, T, gT) in views:
+        sv = _state_exprs(gT, partners)
+        frees = [e for e in gT.events() if e['ev'] == 'call' and is_call(e, 'free') and e['args'] and canon(e['args'][0]) in sv]
+        mp = _must_unless_no_state(gT, lambda x: any(x is fr for fr in frees), sv)
+        used_after = []
+        for fr in frees:
+            after = must_pass(gT, lambda x: False, start_event=fr)
+            for x in gT.events():
+                if x is fr or (x['_b'], x['_i']) not in after or x['ev'] not in ('call', 'enter', 'store', 'load'):
+                    continue
+                if any(y.get('k') == 'var' and y.get('vk') != 'func' and y['name'] in sv for y in walk({k: v for k, v in x.items() if k in ('args', 'e', 'lhs', 'rhs', 'fnexpr')})):
+                    used_after.append(x)
+        ok = bool(frees) and bool(mp.get((gT.exit, 0))) and not used_after
+        ctx.ob('R-C18a.module', '%s:state-block-freed-last' % role, ok, loc=(frees[0]['loc'] if frees else T.loc),
+               detail='the state block is freed on every path and not used afterwards'
+                      + (' (used at %s)' % used_after[0].get('loc') if used_after else ''), fn=T.q)
+        def clears(x):
+            return x['ev'] == 'call' and is_call(x, 'pthr_setspecific') and len(x['args']) > 1 and canon(x['args'][1]) in ('NULL', '0')
+        def sets(x):
+            return x['ev'] == 'call' and is_call(x, 'pthr_setspecific') and not clears(x)
+        mp = must_pass(gT, clears, kill=sets)
+        ctx.ob('R-C18a.module', '%s:slot-cleared-before-free' % role, bool(frees) and all(mp.get((fr['_b'], fr['_i'])) for fr in frees),
+               loc=(frees[0]['loc'] if frees else T.loc), detail='the TLS slot is cleared before the state block is freed', fn=T.q)
 
+
+# --------------------------------------------------------------------------
+# R-C18a.refcnt
+# --------------------------------------------------------------------------
 
 def refcount(ctx, prog):
-    ctr = ('global', 'iv_active_fd_refcount')
     tables = prog.method_tables()
     seen = set()
     for t, slots in sorted(tables.items()):
@@ -385,10 +645,22 @@ def refcount(ctx, prog):
         seen.add(fon.q)
         inl = Inliner(prog)
         gon, goff = inl.inline(fon), inl.inline(foff)
+        # the shared count: the file-scope integer both slots step by one
+        def stepped(g):
+            out = set()
+            for e in g.events():
+                if e['ev'] == 'store' and e['op'] in ('++', '--', '+=', '-='):
+                    r = lvalue_root(e['lhs'])
+                    if r is not None and r.get('vk') in ('global', 'staticlocal') and strip(e['lhs']).get('k') == 'var':
+                        out.add(r['name'])
+            return out
+        ctrs = stepped(gon) & stepped(goff)
+        if len(ctrs) != 1:
+            raise AnalysisBroken('%s/%s: shared reference count not identified (%s)' % (fon.name, foff.name, sorted(ctrs)))
+        cname = ctrs.pop()
+        ctr = ('global', cname)
         ron = delta_analysis(gon, [ctr])
         roff = delta_analysis(goff, [ctr])
-        if not any(d[0] for (_, d, _, _) in ron.rets):
-            raise AnalysisBroken('%s does not touch the shared descriptor reference count' % fon.name)
         fails = [(e, d) for (e, d, rc, p) in ron.rets if is_fail(rc)]
         succ = {d for (e, d, rc, p) in ron.rets if not is_fail(rc)}
         offd = {d for (e, d, rc, p) in roff.rets} | {d for (d, _, _) in roff.exit_states}
@@ -399,34 +671,247 @@ def refcount(ctx, prog):
                path=path_to(gon, e0) if bad else None, fn=fon.q)
         ctx.ob('R-C18a.refcnt', '%s/%s:balance' % (fon.name, foff.name), succ == {(1,)} and offd == {(-1,)}, loc=foff.loc,
                detail='enable %s, disable %s' % (sorted(succ), sorted(offd)), fn=foff.q)
-        # every access to the count and to the descriptor creation/close is under the mutex
-        from ..analyses import locksets, held
+        # every change of the count is made under one common lock
+        sites = []
         for g in (gon, goff):
             ls = locksets(g)
             for e in g.events():
-                if e['ev'] == 'store' and lvalue_root(e['lhs']) is not None and lvalue_root(e['lhs'])['name'] == 'iv_active_fd_refcount':
-                    ctx.ob('R-C18a.refcnt', '%s:count-under-mutex' % g.name, 'iv_fd_epoll_active_fd_mutex' in held(ls.get((e['_b'], e['_i']))),
-                           loc=e['loc'], detail='reference count changed with the mutex held', fn=g.name)
+                if e['ev'] == 'store' and lvalue_root(e['lhs']) is not None and lvalue_root(e['lhs'])['name'] == cname:
+                    sites.append((g, e, held(ls.get((e['_b'], e['_i'])))))
+        cnt = {}
+        for (_, _, hs) in sites:
+            for l in hs:
+                cnt[l] = cnt.get(l, 0) + 1
+        lock = max(sorted(cnt), key=lambda l: cnt[l]) if cnt else None
+        byloc = {}
+        for (g, e, hs) in sites:
+            k = (g.name, e['loc'])
+            byloc[k] = byloc.get(k, True) and (lock is not None and lock in hs)
+        for (gn, loc), ok in sorted(byloc.items()):
+            ctx.ob('R-C18a.refcnt', '%s:count-under-mutex' % gn, ok, loc=loc,
+                   detail='reference count changed with the common lock (%s) held' % lock, fn=gn)
 
 
 # --------------------------------------------------------------------------
-# R-C18c / R-C18c' : bounds of subscripts and of kernel/libc writes
+# R-C18b / R-C18c : subscripts
 # --------------------------------------------------------------------------
 
-TYPE_SIZE = {'char': 1, 'unsigned char': 1, 'uint8_t': 1, 'int': 4, 'unsigned int': 4, 'uint32_t': 4, 'uint64_t': 8, 'long': 8}
-BOUND_EXEMPT = {
-    ('iv_fd_poll_notify_fd', 'st->u.poll.pfds[st->u.poll.num_regd_fds]'):
-        'slot count: one slot per registered descriptor with a handler; registration is fatal for fd >= IV_FD_POLL_MAXFD, and distinct registered '
-        'descriptors have distinct numbers, so num_regd_fds < MAXFD (stated assumption, DESIGN R-C18b)',
-    ('iv_fd_poll_notify_fd', 'st->u.poll.fds[st->u.poll.num_regd_fds]'): 'same slot-count argument',
-}
+def slot_counter(prog):
+    """(record, field) of the slot counter of the poll arrays, by role: the field whose post-incremented
+    value becomes a descriptor's slot index (`fd->u.index = counter++`, possibly through a local)."""
+    if getattr(prog, '_c18_slotctr', None) is not None:
+        return prog._c18_slotctr
+    found = set()
+    for f in prog.all_funcs():
+        evs = list(f.events())
+        stores = [e for e in evs if e['ev'] == 'store' and e.get('op') == '=' and 'rhs' in e and is_fd_index(e['lhs'])]
+        if not stores:
+            continue
+        for e in stores:
+            cands = [e['rhs']]
+            n = var_name(e['rhs']) if strip(e['rhs']).get('k') == 'var' else None
+            if n:
+                cands += [d['rhs'] for d in evs if d['ev'] == 'store' and d.get('op') == '=' and 'rhs' in d
+                          and strip(d['lhs']).get('k') == 'var' and var_name(d['lhs']) == n]
+            for c in cands:
+                c = strip(c)
+                if isinstance(c, dict) and c.get('k') == 'incdec' and c['op'] == '++':
+                    lm = last_member(c['e'])
+                    if lm:
+                        found.add(lm)
+    if len(found) != 1:
+        raise AnalysisBroken('slot counter of the poll arrays not identified (%s)' % sorted(found))
+    prog._c18_slotctr = found.pop()
+    return prog._c18_slotctr
 
 
-def _local_bounds(f):
+def _counter_valued(V, x, ctr, seen=()):
+    """x holds a (past) value of the slot counter"""
+    x = strip(x)
+    if last_member(x) == ctr:
+        return True
+    if V.is_plain_local(x) and x['name'] not in seen:
+        ds = V.defs.get(x['name'], [])
+        return bool(ds) and all(d.get('op') == '=' and 'rhs' in d and _counter_valued(V, d['rhs'], ctr, seen + (x['name'],)) for d in ds)
+    return False
+
+
+def _after_decrement(V, ctr):
+    """{point: on every path to it the slot counter was lowered and not raised/overwritten since}"""
+    if ctr not in V._after_dec:
+        def tr(e, s):
+            if e['ev'] == 'store' and last_member(e['lhs']) == ctr:
+                if e['op'] == '--' or (e['op'] == '-=' and (_intval(e.get('rhs')) or 0) > 0):
+                    return True
+                return False
+            return s
+        _, ev_in = forward(V.g, False, tr, lambda a, b: a and b)
+        V._after_dec[ctr] = ev_in
+    return V._after_dec[ctr]
+
+
+def _idx_kinds(V, x, ctr, seen=()):
+    x = strip(x)
+    if not isinstance(x, dict):
+        return {'other'}
+    if is_fd_index(x):
+        return {'fdindex'}
+    if x.get('k') == 'incdec' and x['op'] == '++' and not x.get('prefix') and last_member(x['e']) == ctr:
+        return {'from++'}
+    if last_member(x) == ctr:
+        return {'counter'}
+    if V.is_plain_local(x) and x['name'] not in seen:
+        ds = V.defs.get(x['name'], [])
+        if not ds:
+            return {'other'}
+        out = set()
+        for d in ds:
+            if d.get('op') != '=' or 'rhs' not in d:
+                return {'other'}
+            out |= _idx_kinds(V, d['rhs'], ctr, seen + (x['name'],))
+        return out
+    return {'other'}
+
+
+def _upper_terms(V, idx, pt):
+    names = V.spellings(idx)
+    out = []
+    for a in V.atoms(pt):
+        if a[0] == '<' and a[1] in names:
+            out.append(a[2])
+        elif a[0] == '>' and a[2] in names:
+            out.append(a[1])
+    return [(u, V.expr_named(u)) for u in out if V.expr_named(u) is not None]
+
+
+# kernel calls that fill an array and return how many elements they filled: name -> (array argument, capacity argument)
+KERNEL_FILL = {'epoll_wait': (1, 2), 'epoll_pwait': (1, 2), 'epoll_pwait2': (1, 2)}
+
+
+def _kernel_count(V, u, arr, seen=()):
+    """u is (a copy of) the result of a kernel call that filled the array `arr`, or a non-positive constant"""
+    x = strip(u)
+    if not isinstance(x, dict):
+        return False
+    if x.get('k') == 'int':
+        return x['v'] <= 0
+    if x.get('k') == 'un' and x['op'] == '-' and _intval(x['e']) is not None:
+        return True
+    if x.get('k') == 'call':
+        spec = KERNEL_FILL.get(x.get('callee'))
+        return bool(spec) and len(x['args']) > spec[0] and arr is not None and V.array_id(x['args'][spec[0]]) == arr
+    if V.is_plain_local(x) and x['name'] not in seen:
+        ds = V.defs.get(x['name'], [])
+        return bool(ds) and all(d.get('op') == '=' and 'rhs' in d and _kernel_count(V, d['rhs'], arr, seen + (x['name'],)) for d in ds)
+    return False
+
+
+def _fmt(v):
+    return '-inf' if v == -INF else 'inf' if v == INF else str(int(v))
+
+
+def prove_subscript(prog, V, site):
+    e, ix = site
+    pt = (e['_b'], e['_i'])
+    idx = ix['idx']
+    ic = canon(idx)
+    A = V.atoms(pt)
+    names = V.spellings(idx)
+    facts = sorted('%s %s %s' % (a[1], a[0], a[2]) for a in A if a[1] in names or a[2] in names)
+    bound = ix.get('bound')
+    lo, hi = V.range(idx, pt)
+    if bound is not None:
+        if lo >= 0 and hi < bound:
+            return ('value range of the index [%s, %s] lies inside the constant bound %d' % (_fmt(lo), _fmt(hi), bound), '')
+        return (None, 'index `%s` ranges over [%s, %s], array bound is %d; facts here: %s' % (ic, _fmt(lo), _fmt(hi), bound, facts or 'none'))
+    arr = V.array_id(ix['base'])
+    ctr = slot_counter(prog)
+    if arr and arr[0] == 'field' and isinstance(arr[-1], tuple) and arr[-1][0] == ctr[0] and arr[-1][1] != ctr[1]:
+        kinds = _idx_kinds(V, idx, ctr)
+        tag = 'INDEX-GUARD: ' if 'fdindex' in kinds else ''
+        if 'other' not in kinds:
+            fresh = any(a[0] == 'from++' and a[1] in names and a[2] in _counter_spellings(V, ctr) for a in A)
+            if fresh:
+                return (tag + 'the index is the value the slot counter had before its increment (the new slot); ' + SLOT_ASSUMPTION, '')
+            ok = True
+            why = []
+            if 'fdindex' in kinds:
+                g_ok = any(atoms_imply(A, '!=', n, '-1') or atoms_imply(A, '>=', n, '0') or atoms_imply(A, '>', n, '-1') for n in names)
+                ok = ok and g_ok
+                why.append('a descriptor\'s slot index with index != -1 established on every path' if g_ok else 'no fact implies index != -1')
+            if 'counter' in kinds:
+                ad = _after_decrement(V, ctr)
+                x = strip(idx)
+                if last_member(x) == ctr:
+                    c_ok = bool(ad.get(pt))
+                else:
+                    ds = V.defs.get(var_name(x) or '', [])
+                    c_ok = bool(ds) and all(ad.get((d['_b'], d['_i'])) for d in ds if last_member(d.get('rhs')) == ctr)
+                ok = ok and c_ok
+                why.append('the slot counter after it was lowered (the last occupied slot); ' + SLOT_ASSUMPTION if c_ok
+                           else 'the slot counter is used as an index without having been lowered first')
+            if ok:
+                return (tag + '; '.join(why), '')
+            return (None, tag + '; '.join(why) + '; facts holding here: %s' % (facts or 'none about the index'))
+        for (u, ue) in _upper_terms(V, idx, pt):
+            if lo >= 0 and _counter_valued(V, ue, ctr):
+                return ('loop index in [0, %s) with %s the number of occupied slots' % (u, u), '')
+        return (None, 'index `%s` of a slot array is neither a guarded slot index, nor the slot counter, nor a loop index below it; facts here: %s'
+                % (ic, facts or 'none'))
+    for (u, ue) in _upper_terms(V, idx, pt):
+        if lo >= 0 and _kernel_count(V, ue, arr):
+            return ('loop index in [0, %s) with %s the count the kernel returned for this very array' % (u, u), '')
+    return (None, 'no constant bound, occupied-slot count or kernel-returned count bounds index `%s` (range [%s, %s]); facts here: %s'
+            % (ic, _fmt(lo), _fmt(hi), facts or 'none'))
+
+
+def _counter_spellings(V, ctr):
+    c = V.__dict__.get('_ctr_sp')
+    if c is None:
+        c = set()
+        for e in V.g.events():
+            for x in walk(e):
+                if x.get('k') == 'member' and (x.get('record'), x['field']) == ctr:
+                    c.add(canon(x))
+        V._ctr_sp = c
+    return c
+
+
+def element_addresses(e):
+    """index nodes of `&A[i]` computations an event makes (stored or passed on): the element is accessed
+    through the resulting pointer, so forming it carries the same bound obligation"""
+    srcs = []
+    if e['ev'] == 'store' and 'rhs' in e:
+        srcs.append(e['rhs'])
+    elif e['ev'] in ('call', 'enter'):
+        srcs += list(e.get('args', []))
+    elif e['ev'] == 'ret' and 'value' in e:
+        srcs.append(e['value'])
+    out = []
+    for s_ in srcs:
+        for x in walk(s_):
+            if x.get('k') == 'addr' and not _has_was(x):
+                t = strip_load(x['e']) if isinstance(x.get('e'), dict) else None
+                while isinstance(t, dict) and t.get('k') == 'member' and not t['arrow']:
+                    t = strip_load(t['base'])
+                if isinstance(t, dict) and t.get('k') == 'index' and not _has_was(t):
+                    out.append(t)
+    return out
+
+
+def _collect_subscripts(V, events):
     out = {}
-    for e in f.events():
-        if e['ev'] == 'decl' and 'bound' in e:
-            out[e['name']] = (e['bound'], TYPE_SIZE.get(e['type'].split('[')[0].strip(), None))
+    for e in events:
+        if e['ev'] in ('load', 'store'):
+            for pos, ix in enumerate(subscripts(e)):
+                if strip(ix['idx']).get('k') == 'int':
+                    continue
+                out.setdefault((e['loc'], e['ev'], pos), []).append((e, ix))
+        if e['ev'] in ('store', 'call', 'enter', 'ret'):
+            for pos, ix in enumerate(element_addresses(e)):
+                if strip(ix['idx']).get('k') == 'int':
+                    continue
+                out.setdefault((e['loc'], '&' + e['ev'].replace('enter', 'call'), pos), []).append((e, ix))
     return out
 
 
@@ -434,208 +919,159 @@ def array_bounds(ctx):
     prog = ctx.prog
     n = 0
     for f in sorted(prog.all_funcs(), key=lambda f: f.q):
-        sites = []
-        for e in f.events():
-            if e['ev'] not in ('load', 'store'):
-                continue
-            x = e['e'] if e['ev'] == 'load' else e['lhs']
-            y = x
-            while isinstance(y, dict):
-                k = y.get('k')
-                if k == 'index':
-                    if strip(y['idx']).get('k') != 'int':
-                        sites.append((e, y))
-                    y = strip_load(y['base']) if strip_load(y['base']).get('k') in ('member', 'index') else None
-                elif k == 'member':
-                    y = y['base'] if not y['arrow'] else None
-                elif k == 'cast':
-                    y = y['e']
-                else:
-                    break
-        if not sites:
+        if not f.blocks or not _collect_subscripts(None, f.events()):
             continue
-        hd = holding(f)
-        seen = set()
-        for (e, ix) in sites:
-            key = canon(ix)
-            if key in seen:
-                continue
-            seen.add(key)
+        res = h18.site_verdict(prog, f, _collect_subscripts, lambda V, s: prove_subscript(prog, V, s))
+        for key in sorted(res):
+            (e, ix), proof, detail, kind = res[key]
             n += 1
-            inst = '%s:%s' % (f.name, key)
-            idx = strip(ix['idx'])
-            ic = canon(idx)
-            A = hd.get((e['_b'], e['_i']), frozenset())
-            bound = ix.get('bound')
-            proof = None
-            if is_fd_index(idx):
-                proof = 'per-descriptor slot index: INDEX-GUARD (R-C18b)'
-            elif (f.name, key) in BOUND_EXEMPT:
-                ctx.exempt('R-C18c', inst, BOUND_EXEMPT[(f.name, key)])
-                proof = 'exempt: ' + BOUND_EXEMPT[(f.name, key)]
-            elif bound is not None:
-                lo = atoms_imply(A, '>=', ic, '0') or _nonneg_loopvar(f, ic)
-                hi = any(a[1] == ic and a[0] == '<' and a[2].lstrip('-').isdigit() and int(a[2]) <= bound for a in A) or \
-                    any(a[1] == ic and a[0] == '<=' and a[2].lstrip('-').isdigit() and int(a[2]) < bound for a in A)
-                if lo and hi:
-                    proof = 'range test against the constant bound %d dominates the access' % bound
-                else:
-                    m = _masked_def(f, ic, bound)
-                    if m:
-                        proof = m
-            else:
-                # heap / VLA array: loop variable bounded by the element count the array was sized or filled with
-                cnts = [a[2] for a in A if a[1] == ic and a[0] == '<']
-                base = canon(strip_load(ix['base']))
-                for c in cnts:
-                    if c.endswith('num_regd_fds'):
-                        proof = 'loop index below the number of occupied slots (%s)' % c
-                    else:
-                        d = _kernel_count(f, c, base)
-                        if d:
-                            proof = d
-            ctx.ob('R-C18c', inst, proof is not None, loc=e['loc'],
-                   detail=proof or 'no range test, mask, bounded loop or slot guard found for index `%s` (bound %s); facts here: %s'
-                          % (ic, bound, sorted('%s %s %s' % (a[1], a[0], a[2]) for a in A if a[1] == ic)),
+            inst = '%s:%s' % (f.name, canon(ix))
+            text = proof or detail
+            if text.startswith('INDEX-GUARD: '):
+                ctx.ob('R-C18b', inst, proof is not None, loc=e['loc'], detail=text[len('INDEX-GUARD: '):],
+                       path=None if proof else path_to(f, e), fn=f.q)
+            if proof and SLOT_ASSUMPTION in proof:
+                ctx.exempt('R-C18c', inst, SLOT_ASSUMPTION)
+            ctx.ob('R-C18c', inst, proof is not None, loc=e['loc'], detail='%s [%s]' % (text, kind),
                    path=None if proof else path_to(f, e), fn=f.q)
     if n < 12:
-        raise AnalysisBroken('variable-index subscripts: %d found, 14 confirmed' % n)
+        raise AnalysisBroken('variable-index subscripts: %d found, 20 confirmed' % n)
 
 
-def _nonneg_loopvar(f, name):
-    inits = [e for e in f.events() if e['ev'] == 'store' and canon(e['lhs']) == name and e['op'] == '=']
-    steps = [e for e in f.events() if e['ev'] == 'store' and canon(e['lhs']) == name and e['op'] != '=']
-    return bool(inits) and all(strip(e['rhs']).get('k') == 'int' and strip(e['rhs'])['v'] >= 0 for e in inits) and all(e['op'] in ('++', '+=') for e in steps)
+# --------------------------------------------------------------------------
+# R-C18c.k : kernel / libc writes
+# --------------------------------------------------------------------------
+
+# name -> (destination argument, length argument, unit of the length)
+WRITERS = {'read': (1, 2, 'bytes'), 'recv': (1, 2, 'bytes'), 'snprintf': (0, 1, 'bytes'), 'vsnprintf': (0, 1, 'bytes'),
+           'epoll_wait': (1, 2, 'elems'), 'epoll_pwait': (1, 2, 'elems'), 'epoll_pwait2': (1, 2, 'elems'),
+           'poll': (0, 1, 'elems'), 'ppoll': (0, 1, 'elems')}
 
 
-def _masked_def(f, name, bound):
-    defs = [e for e in f.events() if e['ev'] == 'store' and canon(e['lhs']) == name]
-    if not defs:
-        return None
-    for e in defs:
-        r = strip(e.get('rhs')) if 'rhs' in e else None
-        if not (isinstance(r, dict) and r.get('k') == 'bin' and r['op'] == '&'):
-            return None
-        ms = [strip(x)['v'] for x in (r['l'], r['r']) if strip(x).get('k') == 'int']
-        if not ms or not (0 <= ms[0] < bound):
-            return None
-    return 'index is masked with a constant below the bound %d at every definition' % bound
+def _is_array_size_of(V, ln, dst):
+    """ln is sizeof(A) / sizeof(A[0]) for the array variable A that dst designates"""
+    x = V.resolve(ln)
+    d = V.resolve(dst)
+    if not (isinstance(x, dict) and x.get('k') == 'bin' and x['op'] == '/' and isinstance(d, dict) and d.get('k') == 'var'):
+        return False
+    l, r = strip(x['l']), strip(x['r'])
+    la = l.get('arg', {}) if isinstance(l, dict) and l.get('k') == 'sizeof' else {}
+    if not ('expr' in la and var_name(la['expr']) == d['name']):
+        return False
+    rs = r.get('sizeof') if isinstance(r, dict) and r.get('k') == 'int' else (r.get('arg') if isinstance(r, dict) and r.get('k') == 'sizeof' else None)
+    if not isinstance(rs, dict) or 'expr' not in rs:
+        return False
+    el = strip(rs['expr'])
+    return isinstance(el, dict) and el.get('k') in ('index', 'deref') and var_name(el.get('base') if el.get('k') == 'index' else el.get('e')) == d['name']
 
 
-def _kernel_count(f, cntvar, base):
-    """cntvar is the result of the wait call that was given `base` and its element count."""
-    for e in f.events():
-        if e['ev'] == 'store' and canon(e['lhs']) == cntvar and 'rhs' in e:
-            c = strip(e['rhs'])
-            if isinstance(c, dict) and c.get('k') == 'call' and len(c.get('args', [])) >= 3:
-                a1, a2 = c['args'][1], strip(c['args'][2])
-                if canon(a1) == base and _is_array_size(a2, base):
-                    return 'loop index below the count returned by %s for this very array, which was told its element count' % (c.get('callee'))
-    return None
+def prove_write(prog, V, e):
+    nm = e.get('callee')
+    pt = (e['_b'], e['_i'])
+    if nm == 'sscanf':
+        fmt = strip(e['args'][1])
+        if fmt.get('k') != 'str':
+            return (None, 'format is not a literal')
+        convs = re.findall(r'%(\*?)(\d*)(?:hh|h|ll|l|z|j|t|L)?([a-zA-Z\[])', fmt['v'].replace('%%', ''))
+        args = list(e['args'][2:])
+        widths = []
+        for (sup, w, c) in convs:
+            if sup:
+                continue
+            a = args.pop(0) if args else None
+            if c in ('s', '['):
+                if not w:
+                    return (None, 'unbounded string conversion')
+                cap = V.capacity(a) if a is not None else None
+                if not cap or cap[0] is None:
+                    return (None, 'size of the destination of %%%ss is not known here' % w)
+                widths.append((int(w), cap[0]))
+                if int(w) + 1 > cap[0]:
+                    return (None, 'conversion width %s plus terminator exceeds the destination array of %d' % (w, cap[0]))
+        return ('string conversion widths %s fit their destination arrays' % [w for w, _ in widths], '')
+    dsti, leni, unit = WRITERS[nm]
+    if len(e['args']) <= max(dsti, leni):
+        return (None, 'unexpected arguments')
+    dst, ln = e['args'][dsti], e['args'][leni]
+    d = V.resolve(dst)
+    if isinstance(d, dict) and d.get('k') == 'bin':
+        return ('offset form: bounded transfer is C17 R-C17d', '')
+    lo, hi = V.range(ln, pt)
+    cap = V.capacity(dst)
+    if cap is None:
+        arr = V.array_id(dst)
+        ctr = slot_counter(prog)
+        if unit == 'elems' and arr and arr[0] == 'field' and isinstance(arr[-1], tuple) and arr[-1][0] == ctr[0] and arr[-1][1] != ctr[1] \
+                and _counter_valued(V, ln, ctr):
+            return ('the kernel is told the number of occupied slots of the slot array; ' + SLOT_ASSUMPTION, '')
+        return (None, 'size of the destination `%s` is not known here' % canon(dst))
+    nel, esz, sym = cap
+    if nel is None:
+        if unit == 'elems' and _is_array_size_of(V, ln, dst):
+            return ('the kernel is given ARRAY_SIZE(%s) as the capacity of %s' % (canon(d), canon(d)), '')
+        if unit == 'elems' and sym is not None and canon(strip(V.resolve(ln))) == canon(strip(sym)):
+            keys = h18._mem_keys(sym)
+            written = [s for s in V.g.events() if s['ev'] == 'store' and (set(lvalue_steps(s['lhs'])) | ({('var', var_name(s['lhs']))} if strip(s['lhs']).get('k') == 'var' else set())) & keys]
+            if not written:
+                return ('the capacity given is the very expression the array was sized with', '')
+        return (None, 'capacity `%s` is not the element count of the variable-length array `%s`' % (canon(ln), canon(d)))
+    if unit == 'bytes':
+        if esz is None:
+            return (None, 'element size of `%s` unknown' % canon(d))
+        capv, what = nel * esz, '%d bytes' % (nel * esz)
+    else:
+        capv, what = nel, '%d elements' % nel
+    if hi <= capv and lo >= 0:
+        return ('length in [%s, %s] <= %s of %s' % (_fmt(lo), _fmt(hi), what, canon(d)), '')
+    if unit == 'elems' and _is_array_size_of(V, ln, dst):
+        return ('the kernel is given ARRAY_SIZE(%s)' % canon(d), '')
+    return (None, 'length `%s` ranges over [%s, %s], destination %s holds %s' % (canon(ln), _fmt(lo), _fmt(hi), canon(d), what))
 
 
-def _is_array_size(x, base):
-    if isinstance(x, dict) and x.get('k') == 'bin' and x['op'] == '/':
-        l = strip(x['l'])
-        if isinstance(l, dict) and l.get('k') == 'sizeof':
-            a = l.get('arg', {})
-            return 'expr' in a and canon(a['expr']) == base
-    return False
+def _collect_writes(V, events):
+    out = {}
+    for e in events:
+        if e['ev'] == 'call' and (e.get('callee') in WRITERS or e.get('callee') == 'sscanf'):
+            out.setdefault((e['loc'], e['callee']), []).append(e)
+    return out
 
 
 def kernel_writes(ctx):
     prog = ctx.prog
     n = 0
     for f in sorted(prog.all_funcs(), key=lambda f: f.q):
-        lb = _local_bounds(f)
-        for e in f.events():
-            if e['ev'] != 'call':
-                continue
-            nm = e.get('callee')
-            if nm == 'read':
-                dst, ln = strip(e['args'][1]), strip(e['args'][2])
-                if dst.get('k') == 'bin':
-                    continue          # offset form: checked by C17 R-C17d
-                n += 1
-                ok, det = False, ''
-                if dst.get('k') == 'var' and dst['name'] in lb:
-                    bound, esz = lb[dst['name']]
-                    cap = bound * (esz or 1)
-                    vals = _possible_values(f, ln)
-                    ok = vals is not None and all(v <= cap for v in vals)
-                    det = 'length %s <= %d bytes of %s' % (vals, cap, dst['name'])
-                elif dst.get('k') == 'addr' and strip(dst['e']).get('k') == 'var':
-                    t = strip(dst['e']).get('type', '')
-                    sz = TYPE_SIZE.get(t)
-                    ok = sz is not None and ln.get('k') == 'int' and ln['v'] <= sz
-                    det = 'length %s <= sizeof(%s) = %s' % (canon(ln), t, sz)
-                ctx.ob('R-C18c.k', '%s:read(%s)' % (f.name, canon(e['args'][1])), ok, loc=e['loc'], detail=det or 'destination size not established', fn=f.q)
-            elif nm in ('snprintf', 'vsnprintf'):
-                n += 1
-                dst, ln = strip(e['args'][0]), strip(e['args'][1])
-                ok = dst.get('k') == 'var' and dst['name'] in lb and ln.get('k') == 'int' and ln['v'] <= lb[dst['name']][0]
-                ctx.ob('R-C18c.k', '%s:%s(%s)' % (f.name, nm, canon(e['args'][0])), ok, loc=e['loc'],
-                       detail='size argument %s <= array size %s' % (canon(ln), lb.get(dst.get('name'), ('?',))[0]), fn=f.q)
-            elif nm == 'sscanf':
-                n += 1
-                import re as _re
-                fmt = strip(e['args'][1])
-                widths = [int(w) for w in _re.findall(r'%(\d+)s', fmt.get('v', ''))] if fmt.get('k') == 'str' else None
-                unbounded = _re.findall(r'%s', fmt.get('v', '')) if fmt.get('k') == 'str' else ['?']
-                dsts = [strip(a) for a in e['args'][2:] if strip(a).get('k') == 'var' and strip(a)['name'] in lb]
-                ok = widths is not None and not unbounded and len(dsts) == len(widths) and all(w + 1 <= lb[d['name']][0] for w, d in zip(widths, dsts))
-                ctx.ob('R-C18c.k', '%s:sscanf' % f.name, ok, loc=e['loc'], detail='string conversion widths %s fit their destination arrays' % widths, fn=f.q)
-    # the epoll wait is told the element count of the array it is given
-    for t, slots in sorted(prog.method_tables().items()):
-        pf = prog.resolve(*slots['poll'])
-        for e in pf.events():
-            if e['ev'] == 'call' and e.get('callee') and prog.has_fn(e['callee']):
-                callee = prog.fn(e['callee'])
-                if any(is_call(x, ('epoll_wait', 'epoll_pwait2')) for x in callee.events()):
-                    n += 1
-                    base = canon(e['args'][1])
-                    ok = _is_array_size(strip(e['args'][2]), base)
-                    # and the callee passes both through unchanged
-                    for x in callee.events():
-                        if is_call(x, ('epoll_wait', 'epoll_pwait2')):
-                            ok = ok and canon(x['args'][1]) == callee.params[1]['name'] and canon(x['args'][2]) == callee.params[2]['name']
-                    ctx.ob('R-C18c.k', '%s:epoll-batch-size' % pf.name, ok, loc=e['loc'],
-                           detail='the kernel is given ARRAY_SIZE(%s) as the capacity of %s' % (base, base), fn=pf.q)
+        if not f.blocks or not any(e['ev'] == 'call' and (e.get('callee') in WRITERS or e.get('callee') == 'sscanf') for e in f.events()):
+            continue
+        res = h18.site_verdict(prog, f, _collect_writes, lambda V, s: prove_write(prog, V, s))
+        for key in sorted(res):
+            e, proof, detail, kind = res[key]
+            if proof and proof.startswith('offset form'):
+                continue          # checked by C17 R-C17d
+            n += 1
+            nm = e['callee']
+            a = e['args'][WRITERS[nm][0]] if nm in WRITERS else None
+            ctx.ob('R-C18c.k', '%s:%s%s' % (f.name, nm, '(%s)' % canon(a) if a is not None else ''), proof is not None, loc=e['loc'],
+                   detail='%s [%s]' % (proof or detail, kind), fn=f.q)
     if n < 8:
         raise AnalysisBroken('sized kernel/libc writes: %d found' % n)
 
 
-def _possible_values(f, x):
-    x = strip(x)
-    if x.get('k') == 'int':
-        return [x['v']]
-    if x.get('k') == 'var':
-        vals = []
-        for e in f.events():
-            if e['ev'] == 'store' and canon(e['lhs']) == x['name'] and 'rhs' in e:
-                r = strip(e['rhs'])
-                if r.get('k') == 'int':
-                    vals.append(r['v'])
-                elif r.get('k') == 'cond' and strip(r['a']).get('k') == 'int' and strip(r['b']).get('k') == 'int':
-                    vals += [strip(r['a'])['v'], strip(r['b'])['v']]
-                else:
-                    return None
-        return vals or None
-    return None
-
+# --------------------------------------------------------------------------
+# R-C18i
+# --------------------------------------------------------------------------
 
 def tls_hooks(ctx):
     """R-C18i: a per-thread module area into which library-allocated records are
     linked must have a deinit_thread hook that visits that field."""
     prog = ctx.prog
     malloced = set()
+    acq = acquirers(prog)
     for f in prog.all_funcs():
+        unit = prog.unit_of(f)
         for e in f.events():
-            if e['ev'] in ('store', 'decl'):
-                rhs = e.get('rhs') if e['ev'] == 'store' else e.get('init')
-                if rhs is not None and any(c.get('callee') in ('malloc', 'calloc') for c in walk(rhs) if c.get('k') == 'call'):
-                    lhs = strip(e['lhs']) if e['ev'] == 'store' else e
-                    r = lhs.get('record')
+            if e['ev'] == 'store' and 'rhs' in e:
+                if prog._c18_kind_of(e['rhs'], unit, {}) == 'mem':
+                    r = strip(e['lhs']).get('record')
                     if r:
                         malloced.add(r)
     users = {}
@@ -645,78 +1081,334 @@ def tls_hooks(ctx):
             users[g['name']] = {k: (canon(v) if v is not None else None) for k, v in flds.items()}
             users[g['name']]['_loc'] = g['loc']
             users[g['name']]['_unit'] = g.get('unit')
+            sz = flds.get('sizeof_state')
+            users[g['name']]['_area'] = (sz.get('sizeof') or {}).get('record') if isinstance(sz, dict) else None
     if len(users) < 5:
         raise AnalysisBroken('iv_tls_user instances: %d found, 5 confirmed' % len(users))
-    # area record of each user: the record its init_thread hook casts its argument to
+
+    def hook(u, name):
+        h = u.get(name)
+        if h and h not in ('NULL', '0', '?'):
+            return prog.resolve(u['_unit'], h) or (prog.fn(h) if prog.has_fn(h) else None)
+        return None
     for name, u in sorted(users.items()):
-        init = u.get('init_thread')
-        area = None
-        if init and init not in ('NULL', '0') and prog.has_fn(init):
-            fi = prog.fn(init)
-            for e in fi.events():
-                if e['ev'] == 'decl' and e.get('record') and e.get('ptr'):
-                    area = e['record']
+        # area record: what sizeof_state measures; else the record the hooks convert their argument to
+        area = u['_area']
+        if area is None:
+            for hn in ('init_thread', 'deinit_thread'):
+                fh = hook(u, hn)
+                if fh is None or not fh.params:
+                    continue
+                p0 = fh.params[0]['name']
+                for e in fh.events():
+                    if e['ev'] == 'store' and 'rhs' in e and var_name(e['rhs']) == p0 and strip(e['lhs']).get('record'):
+                        area = strip(e['lhs'])['record']
         linked = []
         if area:
             for f in prog.all_funcs():
                 for e in f.events():
-                    if is_call(e, ('iv_list_add', 'iv_list_add_tail')):
+                    if e['ev'] == 'call' and is_call(e, ('iv_list_add', 'iv_list_add_tail')) and len(e['args']) == 2:
                         a0 = strip(e['args'][0])
                         a1 = strip(e['args'][1])
-                        lm1 = last_member(a1['e']) if a1.get('k') == 'addr' else None
-                        lm0 = last_member(a0['e']) if a0.get('k') == 'addr' else None
+                        lm1 = last_member(a1['e']) if isinstance(a1, dict) and a1.get('k') == 'addr' else None
+                        lm0 = last_member(a0['e']) if isinstance(a0, dict) and a0.get('k') == 'addr' else None
                         if lm1 and lm1[0] == area and lm0 and lm0[0] in malloced:
                             linked.append((lm1[1], lm0[0], f, e))
-        de = u.get('deinit_thread')
-        has_hook = bool(de) and de not in ('NULL', '0', '?') and prog.has_fn(de)
+                    elif e['ev'] == 'store' and e.get('op') == '=' and 'rhs' in e:
+                        # open-coded insertion: X->list.next/prev = &area->fld
+                        r = strip(e['rhs'])
+                        lm1 = last_member(r['e']) if isinstance(r, dict) and r.get('k') == 'addr' else None
+                        if lm1 and lm1[0] == area and last_member(e['lhs']) in (('iv_list_head', 'next'), ('iv_list_head', 'prev')):
+                            own = [st_ for st_ in lvalue_steps(e['lhs']) if st_[0] in malloced]
+                            if own:
+                                linked.append((lm1[1], own[-1][0], f, e))
+        fde = hook(u, 'deinit_thread')
         if not linked:
             ctx.ob('R-C18i', '%s:no-owned-memory' % name, True, loc=u['_loc'],
                    detail='no library-allocated record is linked into this module\'s per-thread area (%s)' % (area or 'no area record'))
             continue
-        fld = linked[0][0]
-        ok = has_hook
-        if ok:
-            g = Inliner(prog).inline(prog.fn(de))
-            ok = any(x.get('k') == 'member' and last_member(x) == (area, fld) for e in g.events() for x in walk(e))
-        ctx.ob('R-C18i', '%s:%s.%s' % (name, area, fld), ok, loc=u['_loc'],
-               detail='%s records are linked into %s.%s (%s); the module must have a deinit_thread hook that visits that list: %s'
-                      % (linked[0][1], area, fld, linked[0][2].name, de if has_hook else 'MISSING'))
+        for fld in sorted({l[0] for l in linked}):
+            l0 = [l for l in linked if l[0] == fld][0]
+            ok = fde is not None
+            if ok:
+                g = Inliner(prog).inline(fde)
+                ok = any(x.get('k') == 'member' and last_member(x) == (area, fld) for e in g.events() for x in walk(e))
+            ctx.ob('R-C18i', '%s:%s.%s' % (name, area, fld), ok, loc=u['_loc'],
+                   detail='%s records are linked into %s.%s (%s); the module must have a deinit_thread hook that visits that list: %s'
+                          % (l0[1], area, fld, l0[2].name, fde.name if fde is not None else 'MISSING'))
+    # the registration list, by role: what the public iv_tls_user_register appends the user to
+    freg = prog.fn('iv_tls_user_register')
+    reg = Inliner(prog).inline(freg)
+    lists = set()
+    for e in reg.events():
+        for x in walk(e):
+            if x.get('k') == 'var' and x.get('vk') in ('global', 'staticlocal'):
+                gl = prog.global_for(prog.unit_of(freg), x['name'])
+                if gl is not None and gl.get('record') == 'iv_list_head' and not gl.get('ptr'):
+                    lists.add(x['name'])
+    if len(lists) != 1:
+        raise AnalysisBroken('iv_tls_user_register: registration list not identified (%s)' % sorted(lists))
+    lst = lists.pop()
     td = prog.fn('iv_tls_thread_deinit')
     ti = prog.fn('iv_tls_thread_init')
-    def walks(f, hook):
-        return any(e['ev'] == 'call' and last_member(e.get('fnexpr')) == ('iv_tls_user', hook) for e in f.events()) and \
-            any(x.get('k') == 'var' and x['name'] == 'iv_tls_users' for e in f.events() for x in walk(e))
+
+    def walks(f, hk):
+        g = Inliner(prog).inline(f)
+        calls = any(e['ev'] == 'call' and last_member(e.get('fnexpr')) == ('iv_tls_user', hk) for e in g.events())
+        conds = [b.term['cond'] for b in g.blocks.values() if b.term and b.term.get('cond') is not None]
+        mentions = any(x.get('k') == 'var' and x['name'] == lst and x.get('vk') in ('global', 'staticlocal')
+                       for src in (list(g.events()), conds) for y in src for x in walk(y))
+        return calls and mentions
     ctx.ob('R-C18i', 'iv_tls_thread_deinit:visits-every-user', walks(td, 'deinit_thread') and walks(ti, 'init_thread'), loc=td.loc,
-           detail='thread init and tear-down both walk the list registration appends to (iv_tls_users)', fn=td.q)
+           detail='thread init and tear-down both walk the list registration appends to (%s)' % lst, fn=td.q)
+
+
+# --------------------------------------------------------------------------
+# R-C18a.radix
+# --------------------------------------------------------------------------
+
+NODE = 'iv_timer_ratnode'
+DEPTH = ('iv_state', 'rat_depth')
+ROOTF = 'timer_root'
+
+
+def _lin(x, ref, offs):
+    """x == ref + c  ->  c   (ref: ('field', (rec, fld)) or ('var', name)); locals caching such a value are looked up in offs"""
+    x0 = x
+    x = strip(x)
+    if not isinstance(x, dict):
+        return None
+    for n in (names_of(x0) | names_of(x)):
+        if ('i', n) in offs:
+            return offs[('i', n)]
+    if ref[0] == 'field' and last_member(x) == ref[1]:
+        return 0
+    if ref[0] == 'var' and x.get('k') == 'var' and x['name'] == ref[1]:
+        return 0
+    if x.get('k') == 'bin' and x['op'] in ('+', '-'):
+        c = _intval(x['r'])
+        l = _lin(x['l'], ref, offs)
+        if c is not None and l is not None:
+            return l + (c if x['op'] == '+' else -c)
+        if x['op'] == '+' and _intval(x['l']) is not None:
+            r = _lin(x['r'], ref, offs)
+            if r is not None:
+                return r + _intval(x['l'])
+    return None
+
+
+def _child_of(x):
+    """x == V->child[i] / V.child[i] (a slot of a radix node)  ->  the node expression V"""
+    x = strip(x)
+    if isinstance(x, dict) and x.get('k') == 'index':
+        m = strip(x['base'])
+        if isinstance(m, dict) and m.get('k') == 'member' and m.get('record') == NODE:
+            return m['base']
+    return None
+
+
+def level_offsets(g, ref, init):
+    """Forward analysis of  level(node variable) - ref  and  value(int local) - ref, where ref is the tree
+    depth (a state field) or the level parameter of a recursive release.  'ROOT' stands for the node the
+    state's root pointer designates.  Returns {point: {key: offset}}."""
+    def is_ref_store(e):
+        if ref[0] == 'field':
+            return last_member(e['lhs']) == ref[1] and strip(e['lhs']).get('k') == 'member'
+        return strip(e['lhs']).get('k') == 'var' and var_name(e['lhs']) == ref[1]
+
+    def node_off(x, S):
+        """offset of the node a pointer value designates"""
+        x0 = x
+        x = strip(x)
+        if not isinstance(x, dict):
+            return None
+        for n in (names_of(x0) | names_of(x)):
+            if ('n', n) in S:
+                return S[('n', n)]
+        if x.get('k') == 'member' and x['field'] == ROOTF:
+            return S.get('ROOT')
+        p = _child_of(x)
+        if p is not None:
+            o = node_off(p, S)
+            return None if o is None else o - 1
+        return None
+
+    def tr(e, Sf):
+        if e['ev'] != 'store':
+            return Sf
+        S = dict(Sf)
+        if is_ref_store(e):
+            d = None
+            if e['op'] == '--':
+                d = 1
+            elif e['op'] == '++':
+                d = -1
+            elif e['op'] in ('-=', '+=') and _intval(e.get('rhs')) is not None:
+                d = _intval(e['rhs']) * (1 if e['op'] == '-=' else -1)
+            elif e['op'] == '=' and 'rhs' in e:
+                c = _lin(e['rhs'], ref, {k: v for k, v in S.items()})
+                d = -c if c is not None else None
+            if d is None:
+                return frozenset()
+            return frozenset((k, v + (d if k != 'GONE' else 0)) for k, v in S.items())
+        l = strip(e['lhs'])
+        if l.get('k') == 'var':
+            n = l['name']
+            S.pop(('n', n), None)
+            S.pop(('i', n), None)
+            if e['op'] == '=' and 'rhs' in e:
+                o = node_off(e['rhs'], dict(Sf))
+                if o is not None:
+                    S[('n', n)] = o
+                else:
+                    c = _lin(e['rhs'], ref, dict(Sf))
+                    if c is not None:
+                        S[('i', n)] = c
+            return frozenset(S.items())
+        par = _child_of(l)
+        if par is not None and var_name(par) and e['op'] == '=' and 'rhs' in e:
+            # V->child[k] = N : V is one level above N
+            o = node_off(e['rhs'], dict(Sf))
+            if o is not None:
+                S[('n', var_name(par))] = o + 1
+                return frozenset(S.items())
+            return Sf
+        if l.get('k') == 'member' and l['field'] == ROOTF:
+            S.pop('ROOT', None)
+            S.pop('GONE', None)
+            if e['op'] == '=' and 'rhs' in e:
+                o = node_off(e['rhs'], dict(Sf))
+                if o is not None:
+                    S['ROOT'] = o
+                elif canon(e['rhs']) in ('NULL', '0'):
+                    S['GONE'] = 0
+            return frozenset(S.items())
+        return Sf
+    _, ev_in = forward(g, frozenset(init.items()), tr, lambda a, b: a & b)
+    return {k: dict(v) for k, v in ev_in.items()}, node_off
 
 
 def radix(ctx):
     prog = ctx.prog
-    r = prog.fn('iv_timer_radix_tree_remove_level')
-    dec = [e for e in r.events() if e['ev'] == 'store' and last_member(e['lhs']) == ('iv_state', 'rat_depth') and e['op'] in ('--', '-=')]
-    frees = [e for e in r.events() if is_call(e, 'iv_timer_free_ratnode')]
-    if not frees:
-        raise AnalysisBroken('remove_level: subtree release not found')
-    mp = must_pass(r, lambda e: e in dec)
-    ok = bool(dec) and all(mp.get((e['_b'], e['_i'])) for e in frees) and all(last_member(e['args'][1]) == ('iv_state', 'rat_depth') for e in frees)
-    ctx.ob('R-C18a.radix', 'remove_level:depth-lowered-before-subtrees-freed', ok, loc=frees[0]['loc'],
-           detail='the children of the root being removed are at depth rat_depth - 1: rat_depth-- precedes iv_timer_free_ratnode(child, st->rat_depth) '
-                  '(with the old depth the leaves\' slots, which hold user timers, would be freed as nodes)', fn=r.q)
-    f = prog.fn('iv_timer_free_ratnode')
-    hd = holding(f)
-    rec = [e for e in f.events() if is_call(e, 'iv_timer_free_ratnode')]
-    dp = f.params[1]['name']
-    okr = bool(rec)
-    for e in rec:
-        A = hd.get((e['_b'], e['_i']), frozenset())
-        okr = okr and canon(e['args'][1]) == '(%s - 1)' % dp and any(a[0] == '!=' and a[1] == dp and a[2] == '0' for a in A)
-    ctx.ob('R-C18a.radix', 'free_ratnode:descends-only-above-leaves', okr, loc=f.loc,
-           detail='recursion into child[i] only on the edge depth != 0 and with depth - 1', fn=f.q)
-    own = must_pass(f, lambda e: is_call(e, 'free') and canon(e['args'][0]) == f.params[0]['name'])
-    ctx.ob('R-C18a.radix', 'free_ratnode:frees-the-node', bool(own.get((f.exit, 0))), loc=f.loc, detail='the node itself is freed on every path', fn=f.q)
+    # role: functions that free a radix node handed to them (subtree release)
+    freers = {}
+    for f in prog.all_funcs():
+        nodes = [p['name'] for p in f.params if p.get('record') == NODE and p.get('ptr')]
+        if not nodes or not f.blocks:
+            continue
+        if any(e['ev'] == 'call' and is_call(e, 'free') and e['args'] and var_name(e['args'][0]) in nodes for e in f.events()):
+            ints = [p['name'] for p in f.params if p['type'].replace('const ', '').strip() in ('int', 'unsigned int', 'unsigned')]
+            if len(ints) != 1:
+                raise AnalysisBroken('%s frees a radix node but has no single level parameter' % f.name)
+            freers[f.q] = (f, nodes[0], ints[0], [p['name'] for p in f.params])
+    if not freers:
+        raise AnalysisBroken('no function frees a radix node handed to it (subtree release not found)')
+    fnames = {v[0].name for v in freers.values()}
+
+    def freer_of(f, e):
+        t = prog.resolve(prog.unit_of(f), e['callee']) if 'callee' in e else None
+        return freers.get(t.q) if t is not None else None
+
+    # contract inside each release function: level(node parameter) == level parameter
+    for q, (f, pn, pl, pnames) in sorted(freers.items()):
+        V = view_of(prog, f)
+        offs, node_off = level_offsets(f, ('var', pl), {('n', pn): 0})
+        rec = [e for e in f.events() if e['ev'] == 'call' and e.get('callee') in fnames]
+        okr, why = True, []
+        for e in rec:
+            tgt = freer_of(f, e)
+            if tgt is None:
+                continue
+            S = offs.get((e['_b'], e['_i']), {})
+            ai, li = tgt[3].index(tgt[1]), tgt[3].index(tgt[2])
+            x, lv = e['args'][ai], e['args'][li]
+            par = _child_of(x)
+            o = node_off(par, S) if par is not None else None
+            c = _lin(lv, ('var', pl), S)
+            A = V.at(e)
+            if o is None or c is None:
+                okr = False
+                why.append('descent at %s not understood' % e['loc'].split('/')[-1])
+                continue
+            if c != o - 1:
+                okr = False
+                why.append('child of a node at level %s%+d is handed on as level %s%+d' % (pl, o, pl, c))
+            # only above the leaves: level of the parent node > 0
+            if not (atoms_imply(A, '!=', pl, str(-o)) or atoms_imply(A, '>', pl, str(-o)) or atoms_imply(A, '>=', pl, str(1 - o))):
+                okr = False
+                why.append('descent not guarded by %s != %d' % (pl, -o))
+        ctx.ob('R-C18a.radix', 'subtree-release:descends-only-above-leaves', okr and bool(rec), loc=f.loc,
+               detail='; '.join(why) or 'recursion into child[i] only where the level is non-zero and with level - 1 (%d sites)' % len(rec), fn=f.q)
+        own = must_pass(f, lambda e: e['ev'] == 'call' and is_call(e, 'free') and e['args'] and var_name(e['args'][0]) == pn)
+        ctx.ob('R-C18a.radix', 'subtree-release:frees-the-node', bool(own.get((f.exit, 0))), loc=f.loc,
+               detail='the node itself is freed on every path', fn=f.q)
+    # callers of the release: the level they pass is the true level of the subtree.  Modular argument over the
+    # timer module's entry points (nearest non-static / address-taken functions above the sites): assuming the
+    # tree invariant "the root pointer designates a node at level rat_depth" at their entry, every release site
+    # passes the true level and the invariant holds again at their exit.
+    rts = {r.q for r in roles.roots(prog)}
+
+    def nearest_roots(fs):
+        out, seen, work = {}, set(), list(fs)
+        while work:
+            x = work.pop()
+            if x.q in seen:
+                continue
+            seen.add(x.q)
+            if x.q in rts:
+                out[x.q] = x
+                continue
+            for (c, e) in prog.callers_of(x.name):
+                if prog.resolve(prog.unit_of(c), e['callee']) is x:
+                    work.append(c)
+        return out
+    owners = [f for f in prog.all_funcs() if f.q not in freers and any(e['ev'] == 'call' and e.get('callee') in fnames and freer_of(f, e) for e in f.events())]
+    writers = [f for f in prog.all_funcs() if any(e['ev'] == 'store' and last_member(e['lhs']) == DEPTH and strip(e['lhs']).get('k') == 'member' for e in f.events())]
+    need = nearest_roots(owners)
+    wneed = nearest_roots(writers)
+    byloc = {}
+    reached_from = set()
+    allneed = dict(wneed)
+    allneed.update(need)
+    for q in sorted(allneed):
+        g = Inliner(prog, stop=lambda t: t.q in freers).inline(allneed[q])
+        offs, node_off = level_offsets(g, ('field', DEPTH), {'ROOT': 0})
+        if q in wneed:
+            S = offs.get((g.exit, 0), {})
+            ctx.ob('R-C18a.radix', '%s:tree-invariant-preserved' % allneed[q].name, S.get('ROOT') == 0 or 'GONE' in S, loc=allneed[q].loc,
+                   detail='at exit the root pointer designates a node at level rat_depth%s (or the tree is gone)'
+                          % ('' if S.get('ROOT') in (0, None) else '%+d' % S['ROOT']), fn=q)
+        for e in g.events():
+            if e['ev'] != 'call' or e.get('callee') not in fnames:
+                continue
+            tgt = [v for v in freers.values() if v[0].name == e['callee']][0]
+            S = offs.get((e['_b'], e['_i']), {})
+            ai, li = tgt[3].index(tgt[1]), tgt[3].index(tgt[2])
+            par = _child_of(e['args'][ai])
+            o = node_off(par, S) if par is not None else node_off(e['args'][ai], S)
+            if par is not None and o is not None:
+                o -= 1
+            c = _lin(e['args'][li], ('field', DEPTH), S)
+            ok = o is not None and c is not None and o == c
+            det = ('subtree at level depth%+d handed on as level depth%+d' % (o, c)) if (o is not None and c is not None) \
+                else 'level of the subtree or of the argument not established (node %s, level %s)' % (o, c)
+            reached_from.add(allneed[q].name)
+            k = e['loc']
+            prev = byloc.get(k, (True, det))
+            byloc[k] = (prev[0] and ok, det if (prev[0] or not ok) else prev[1])
+    if not byloc:
+        raise AnalysisBroken('no call of the subtree release outside itself')
+    for loc, (ok, det) in sorted(byloc.items()):
+        ctx.ob('R-C18a.radix', 'level-removal:subtree-level', ok, loc=loc,
+               detail='%s (the children of the root being removed are one level below it; with the level of the root itself the leaves\' slots, '
+                      'which hold user timers, would be freed as nodes)' % det)
     d = prog.fn('iv_timer_deinit')
-    lp = [e for e in d.events() if is_call(e, 'iv_timer_radix_tree_remove_level')]
-    hdd = holding(d)
-    A = hdd.get((d.exit, 0), frozenset())
-    ctx.ob('R-C18a.radix', 'timer_deinit:all-levels-removed', bool(lp) and any(a[0] == '==' and a[1].endswith('rat_depth') and a[2] == '0' for a in A), loc=d.loc,
-           detail='levels are removed until rat_depth == 0', fn=d.q)
+    gd = roles.inlined(prog, d)
+    Vd = view_of(prog, gd)
+    A = Vd.atoms((gd.exit, 0))
+    dsp = {canon(x) for e in gd.events() for x in walk(e) if x.get('k') == 'member' and (x.get('record'), x['field']) == DEPTH}
+    dsp |= {canon(x) for b in gd.blocks.values() if b.term and b.term.get('cond') for x in walk(b.term['cond'])
+            if x.get('k') == 'member' and (x.get('record'), x['field']) == DEPTH}
+    ctx.ob('R-C18a.radix', 'timer_deinit:all-levels-removed',
+           'iv_timer_deinit' in reached_from and any(a[0] == '==' and a[1] in dsp and a[2] == '0' for a in A), loc=d.loc,
+           detail='iv_timer_deinit reaches the level removal and returns only with the depth == 0', fn=d.q)
